@@ -212,6 +212,8 @@ def replay(ctx):
     out = c.get("out") if "out" in c else (c.get("res") or {}).get("rows")
     print("  implementation rows: %d%s" % (len(out or []), "" if "results" not in c else "  per-row results: %s" % c["results"]))
     ctx.cov["evaluations"] = 1
+    ctx.cov.setdefault("obligations", 0)
+    ctx.cov.setdefault("discharged", 0)
     ctx.cov["samples"] = [{"mode": c["mode"], "verdict": code}]
     if code not in (0, 1):
         ctx.violation({"kind": "replayed case: " + VERDICT_TEXT.get(code, "?"), "case": c})
